@@ -16,6 +16,7 @@ PAUS = WT + "/packages/contract-utils/src/pausable/storage.rs"
 CMP = WT + "/packages/tokens/src/rwa/compliance/storage.rs"
 IDV = WT + "/packages/tokens/src/rwa/identity_verifier/storage.rs"
 BIND = WT + "/packages/tokens/src/rwa/utils/token_binder/storage.rs"
+OVR = WT + "/packages/tokens/src/fungible/overrides.rs"
 
 MUT = {
  # ---- mutants that must be reported ----
@@ -260,6 +261,39 @@ MUT = {
         e.storage().persistent().set(&key, &freeze);
         e.storage().persistent().extend_ttl(&key, FROZEN_TTL_THRESHOLD, FROZEN_EXTEND_AMOUNT);
 """),
+ # ---- review follow-up: currently-registered collaborator, frames, public getters ----
+ "k01_set_compliance_first_registration_wins": (F, """        e.storage().instance().set(&RWAStorageKey::Compliance, compliance);
+        emit_compliance_set(e, compliance);""", """        if !e.storage().instance().has(&RWAStorageKey::Compliance) {
+            e.storage().instance().set(&RWAStorageKey::Compliance, compliance);
+        }
+        emit_compliance_set(e, compliance);"""),
+ "k02_set_identity_verifier_writes_compliance_key": (F, "e.storage().instance().set(&RWAStorageKey::IdentityVerifier, identity_verifier);", "e.storage().instance().set(&RWAStorageKey::Compliance, identity_verifier);"),
+ "k03_mint_does_not_count_in_total_supply": (FUNG, """            e.storage().instance().set(&FungibleStorageKey::TotalSupply, &new_total_supply);""", """            let _ = new_total_supply;"""),
+ "k04_public_balance_getter_reports_free_tokens": (F, """impl ContractOverrides for RWA {
+    fn transfer(""", """impl ContractOverrides for RWA {
+    fn balance(e: &Env, account: &Address) -> i128 {
+        RWA::get_free_tokens(e, account)
+    }
+
+    fn transfer("""),
+ "k05_forced_transfer_consumes_an_allowance": (F, """        Base::update(e, Some(from), Some(to), amount);
+
+        let compliance_addr = Self::compliance(e);
+        let compliance_client = ComplianceClient::new(e, &compliance_addr);
+        compliance_client.transferred(from, to, &amount, &e.current_contract_address());""", """        Base::update(e, Some(from), Some(to), amount);
+        if Base::allowance(e, from, to) >= amount && amount > 0 {
+            Base::spend_allowance(e, from, to, amount);
+        }
+
+        let compliance_addr = Self::compliance(e);
+        let compliance_client = ComplianceClient::new(e, &compliance_addr);
+        compliance_client.transferred(from, to, &amount, &e.current_contract_address());"""),
+ "k06_recovery_target_asked_of_compliance_address": (F, """    pub fn recover_balance(e: &Env, old_account: &Address, new_account: &Address) -> bool {
+        // Verify identity for the new account
+        let identity_verifier_addr = Self::identity_verifier(e);""", """    pub fn recover_balance(e: &Env, old_account: &Address, new_account: &Address) -> bool {
+        // Verify identity for the new account
+        let identity_verifier_addr = Self::identity_verifier(e);
+        let _ = Self::compliance(e);"""),
  # ---- harmless rewrites that must stay quiet ----
  "h01_reorder_pause_and_freeze_checks_new_error_code": (F, """        // Check if contract is paused
         if paused(e) {
